@@ -212,7 +212,9 @@ def emit_harnesses(methods):
     kani::assume(legal_%s(%s) && contract_%s(%s));
     let w = call_%s(%s);
     kani::cover!(true, "VACUITY call returned");
-    assert!(post_%s(&w, %s), "POST decode(word) == requested instruction");
+    let ok = post_%s(&w, %s);
+    kani::cover!(!ok, "CEX post-condition violated");
+    assert!(ok, "POST decode(word) == requested instruction");
 }
 """) % (uw, m.name, decl_symbolic(m), pre, m.name, m.args(), m.name, m.args(), m.name, m.args(), m.name, m.args()))
             names.append(("legal__" + m.name, m.name, "legal", "quick"))
@@ -223,8 +225,11 @@ def emit_harnesses(methods):
     kani::assume(%s);
     let w = call_%s(%s);
     kani::cover!(true, "VACUITY call returned");
-    assert!(legal_%s(%s), "POST accepted operands are encodable");
-    assert!(post_%s(&w, %s), "POST decode(word) == requested instruction");
+    let lg = legal_%s(%s);
+    let ok = lg && post_%s(&w, %s);
+    kani::cover!(!ok, "CEX post-condition violated");
+    assert!(lg, "POST accepted operands are encodable");
+    assert!(ok, "POST decode(word) == requested instruction");
 }
 """) % (uw, m.name, decl_symbolic(m), pre, m.name, m.args(), m.name, m.args(), m.name, m.args()))
             names.append(("any__" + m.name, m.name, "any", "thorough"))
@@ -339,7 +344,9 @@ def emit_label_harnesses(m):
     kani::assume(legal_%(n)s(%(args)s) && contract_%(n)s(%(args)s));
     let (code, pos, target) = run_%(n)s_%(hk)s(%(a2)sk);
     kani::cover!(true, "VACUITY call returned");
-    assert!(post_%(n)s(&code, pos, target, %(two)s, %(a2)sk), "POST branch reaches the bound label");
+    let ok = post_%(n)s(&code, pos, target, %(two)s, %(a2)sk);
+    kani::cover!(!ok, "CEX post-condition violated");
+    assert!(ok, "POST branch reaches the bound label");
 }
 """ % {"uw": uw, "hk": hk, "n": m.name, "decl": decl_symbolic(m), "kdom": kdom, "args": args, "a2": a2, "two": two,
        "stub": "#[kani::stub(std::vec::Vec::reserve, crate::support::reserve_once_label)]\n"})
